@@ -90,7 +90,7 @@ theorem coreInv_switchStart (c : Ctx) (s : St) (obs : List Obs) (d : DagRef) (n 
   unfold switchStart
   simp only []
   split
-  · simpa using h
+  · split <;> simpa using h
   · split
     · simpa using h
     · apply coreInv_dagInit
